@@ -59,22 +59,39 @@ package forwarder
 
 //@ pred hdrFirst(h http.Header, k string) = ite((k in h) && len(h[k]) > 0, h[k][0], "")
 
-// isLocalhost: every name of the localhost list (compared in lower case) and
-// every loopback or unspecified IP literal, in any spelling.
+// The time-frame check (C04): outside the allowed frame the request is refused
+// with the error that maps to 451 - for every request, whatever its method.
+//@ func (*HTTPProxy).allowWithinTimeFrame$1
+//@ property C04
+//@ requires hp != nil
+//@ modifies tfNow(), tfArg(), tfLast(), tfN(), tfResult()
+//@ ensures tfResult() ==> result == nil
+//@ ensures !tfResult() ==> (result is prohibitedError)
+
+// isLocalhost: every name of the localhost list and every loopback or
+// unspecified IP literal, in any spelling of the target: compared in lower
+// case, without the zone of an IPv6 literal ("%..." does not change where the
+// connection goes) and without the trailing dot of an absolute domain name.
+//@ ghost fn trimSuffixG(string, string) string
+//@ func strings.TrimSuffix as (s string, suffix string) (result string)
+//@ trusted
+//@ pure
+//@ ensures result == trimSuffixG(s, suffix)
+//@ define normHost(h string) string = trimSuffixG(cutBefore(toLower(h), "%"), ".")
 //@ func (*HTTPProxy).isLocalhost
 //@ property C04 C05
 //@ requires hp != nil
 //@ pure
-//@ ensures (exists i int :: 0 <= i && i < len(hp.localhost) && hp.localhost[i] == toLower(host)) ==> result
-//@ ensures parseOK(toLower(host)) && (isLoopbackIP(toLower(host)) || isUnspecIP(toLower(host))) ==> result
-//@ ensures result ==> (exists i int :: 0 <= i && i < len(hp.localhost) && hp.localhost[i] == toLower(host)) || (parseOK(toLower(host)) && (isLoopbackIP(toLower(host)) || isUnspecIP(toLower(host))))
+//@ ensures (exists i int :: 0 <= i && i < len(hp.localhost) && hp.localhost[i] == normHost(host)) ==> result
+//@ ensures parseOK(normHost(host)) && (isLoopbackIP(normHost(host)) || isUnspecIP(normHost(host))) ==> result
+//@ ensures result ==> (exists i int :: 0 <= i && i < len(hp.localhost) && hp.localhost[i] == normHost(host)) || (parseOK(normHost(host)) && (isLoopbackIP(normHost(host)) || isUnspecIP(normHost(host))))
 
 //@ func (*HTTPProxy).denyLocalhost$1
 //@ property C04
 //@ requires req != nil && req.URL != nil && hp != nil
 //@ pure
 //@ ensures result == nil || result is denyError
-//@ ensures parseOK(toLower(urlHostname(req.URL))) && (isLoopbackIP(toLower(urlHostname(req.URL))) || isUnspecIP(toLower(urlHostname(req.URL)))) ==> result is denyError
+//@ ensures parseOK(normHost(urlHostname(req.URL))) && (isLoopbackIP(normHost(urlHostname(req.URL))) || isUnspecIP(normHost(urlHostname(req.URL)))) ==> result is denyError
 
 // ---- error classification (C12 part 2, C04 L4.2) ----
 
@@ -352,7 +369,7 @@ package forwarder
 //@ property C05
 //@ requires hp != nil && req != nil && req.URL != nil && fn != nil
 //@ modifies **
-//@ ensures old(parseOK(toLower(urlHostname(req.URL))) && (isLoopbackIP(toLower(urlHostname(req.URL))) || isUnspecIP(toLower(urlHostname(req.URL))))) ==> result0 == nil && result1 == nil
+//@ ensures old(parseOK(normHost(urlHostname(req.URL))) && (isLoopbackIP(normHost(urlHostname(req.URL))) || isUnspecIP(normHost(urlHostname(req.URL))))) ==> result0 == nil && result1 == nil
 
 // Dialer.DialContext: the address that is dialled is the one the redirect
 // function returns for the requested address (the requested one without rules).
